@@ -9,6 +9,8 @@ pub enum Reply {
     Msg(MessageType),
     /// reply with this message but flagged read-only
     MsgRo(MessageType),
+    /// reply carrying an `ip` field (the requester's address as seen by the responder)
+    MsgIp(MessageType, std::net::SocketAddrV4),
     Raw(Vec<u8>),
     Silent,
 }
@@ -68,6 +70,7 @@ impl Scn {
             match f(self, &inc) {
                 Reply::Msg(mt) => self.peers[inc.peer].send(inc.from, inc.msg.transaction_id, mt, false, None),
                 Reply::MsgRo(mt) => self.peers[inc.peer].send(inc.from, inc.msg.transaction_id, mt, true, None),
+                Reply::MsgIp(mt, ip) => self.peers[inc.peer].send(inc.from, inc.msg.transaction_id, mt, false, Some(ip)),
                 Reply::Raw(b) => self.peers[inc.peer].send_raw(inc.from, &b),
                 Reply::Silent => {}
             }
